@@ -590,7 +590,7 @@ func (a *stateAnalysis) outcomeOf(callee *ssa.Function, single stateSet, bind bi
 	}
 	inMap := forward(callee, L, single, pre, edge)
 	// what is known about the returned value on the path to each return
-	vf := mustFlow(callee, facts{}, nil, func(f facts, b *ssa.BasicBlock, s int) facts { return f.with(valueEdgeFacts(b, s)...) })
+	vf := mustFlow(callee, facts{}, valueGen, func(f facts, b *ssa.BasicBlock, s int) facts { return f.with(valueEdgeFacts(b, s)...) })
 	var oc outcomeSet
 	for _, b := range callee.Blocks {
 		if inMap[b] == nil {
